@@ -9,7 +9,7 @@ CONSTANTS
   Filters = {"*", "a", "a.*", "*.b", "a*.b*"}
   DelParents = {"", "a"}
   CopySrc = {"a"}
-  CopyDst = {"", "b"}
+  CopyDst = {""}
   AttrNodes = {"a"}
   AttrKeys = {"k"}
   MaxNodes = 9
